@@ -20,7 +20,7 @@ import numpy as np
 
 from sim import models, peers
 from sim.core import EventLog, arr_digest, derive_seed
-from sim.seams import InjectedFault, Seams, SimClock, SimCrash, SimParallel, import_all_black_it, wrap_methods
+from sim.seams import InjectedInterrupt, InjectedFault, Seams, SimClock, SimCrash, SimParallel, import_all_black_it, wrap_methods
 from sim.threads import Baton, Deadlock, QueueModuleShim, StepLimit, ThreadingShim
 
 SAMPLER_KINDS = ["uniform", "halton", "rseq", "bestbatch", "gp", "rf", "xgb", "pso", "cors"]
@@ -399,7 +399,7 @@ class CalSim:
             self.stats[f"{f['kind']}@model"] += 1
             if f["kind"] == "crash":
                 raise SimCrash(f"crash at model call {idx}")
-            raise InjectedFault(f"model call {idx}")
+            raise (InjectedInterrupt if self.env.get("fault_base") == "interrupt" else InjectedFault)(f"model call {idx}")
         models.SCRIPT["i"] = idx      # a scripted model answers by task index, whatever the completion order
         return func(*args, **kwargs)
 
@@ -456,7 +456,7 @@ class CalSim:
                 if f is not None:
                     sim.fired.append(f)
                     sim.stats["raise@sampler"] += 1
-                    raise InjectedFault(f"sample call {idx}")
+                    raise (InjectedInterrupt if self.env.get("fault_base") == "interrupt" else InjectedFault)(f"sample call {idx}")
                 d0 = (arr_digest(existing_points), arr_digest(existing_losses))
                 out = orig(self_s, search_space, existing_points, existing_losses)
                 d1 = (arr_digest(existing_points), arr_digest(existing_losses))
@@ -517,7 +517,7 @@ class CalSim:
             if f is not None:
                 sim.fired.append(f)
                 sim.stats["raise@loss"] += 1
-                raise InjectedFault(f"loss call {idx}")
+                raise (InjectedInterrupt if self.env.get("fault_base") == "interrupt" else InjectedFault)(f"loss call {idx}")
             din = arr_digest(sim_data_ensemble)
             dreal = arr_digest(real_data)
             out = orig(self_l, sim_data_ensemble, real_data)
@@ -702,7 +702,7 @@ class CalSim:
         try:
             ret = cal.calibrate(n)
             res["ret"] = (np.array(ret[0], copy=True), np.array(ret[1], copy=True))
-        except InjectedFault as e:
+        except (InjectedFault, InjectedInterrupt) as e:
             res["exc"] = ("InjectedFault", str(e))
         except (Deadlock, StepLimit) as e:
             res["exc"] = (type(e).__name__, str(e))
